@@ -15,7 +15,7 @@ import sys
 import traceback
 
 from . import ir
-from .report import AnalysisError, Run, Timer, split_known, write_evidence, write_replay
+from .report import AnalysisError, Refuted, Run, Timer, split_known, write_evidence, write_replay
 
 PIDS = [f"C{i:02d}" for i in range(1, 21)]
 
@@ -32,7 +32,15 @@ def evaluate(pid, sources=None, overrides=None, tier="quick", seed=0):
         if len(prog.modules) < 40:
             raise AnalysisError(f"only {len(prog.modules)} units parsed under {prog.root}/ixai (expected >= 40)")
         run = Run(pid, prog, tier, seed)
-        mod.check(run)
+        try:
+            mod.check(run)
+        except Refuted as r:
+            run.fail(r.rule, r.instance, r.where, r.func, r.construct, r.message)
+        except (AnalysisError, ir.Unsupported) as e:
+            # a clause that could not be decided does not take back a violation that was already established
+            if not run.findings:
+                raise
+            run.notes["undecided_after_findings"] = f"{type(e).__name__}: {e}"
         for rule, minimum in ({} if run.findings else getattr(mod, "MIN_INSTANCES", {})).items():
             got = len(run.rule_instances.get(rule, ()))
             if got < minimum:
